@@ -780,8 +780,10 @@ class AgreementMonitor(Monitor):
     def on_event(self, ev):
         w = self.run.world
         if ev['k'] == 'rpc_ret' and ev['method'] == 'supvisors.get_all_local_process_info' and ev['src'] != 'user':
-            # the observer has just taken its snapshot of that peer (loaded when the notification is processed)
+            # the observer has just taken its snapshot of that peer (loaded when the notification is processed): what
+            # that peer did not publish to it before this instant is in the snapshot
             self.snapshot_taken.add((ev['src'], ev['dst']))
+            self.unpublished.pop((ev['src'], ev['dst']), None)
             return
         if ev['k'] == 'spawn':
             self.spawned_at[(ev['inst'], ev['namespec'])] = ev['t']
